@@ -65,12 +65,18 @@ Inductive result (A : Type) := Ok (a : A) | Err.
 Arguments Ok {A} a.
 Arguments Err {A}.
 
+(* checkers (experimaestro.checkers): Annotated[T, Choices([...])] or any Checker
+   subclass; the harness uses Choices and a user-defined "has at least one element" *)
+Inductive checker := CChoices (choices : list value) | CNonEmpty.
+
 (* ------------------------------------------------------------ class tables *)
 Record argdecl := {
   a_ty : tyexp;
   a_required : bool;
   a_generated : bool;      (* has a generator (e.g. pathgenerator) *)
-  a_constant : bool
+  a_constant : bool;
+  a_optional : bool;       (* declared Optional[...]: None is a value of the parameter *)
+  a_checker : option checker
 }.
 
 Record cls := {
@@ -120,12 +126,14 @@ Definition declare (a : annot) (has_default : bool) : option argdecl :=
   match a with
   | AOpt x =>
       match from_type x with
-      | Some t => Some {| a_ty := t; a_required := false; a_generated := false; a_constant := false |}
+      | Some t => Some {| a_ty := t; a_required := false; a_generated := false; a_constant := false;
+                          a_optional := true; a_checker := None |}
       | None => None
       end
   | _ =>
       match from_type a with
-      | Some t => Some {| a_ty := t; a_required := negb has_default; a_generated := false; a_constant := false |}
+      | Some t => Some {| a_ty := t; a_required := negb has_default; a_generated := false; a_constant := false;
+                          a_optional := false; a_checker := None |}
       | None => None
       end
   end.
@@ -189,6 +197,50 @@ Fixpoint dict_get (ps : list (value * value)) (k : value) : option value :=
   match ps with
   | [] => None
   | (k0, v0) :: r => if keq k0 k then Some v0 else dict_get r k
+  end.
+
+(* Python == between values (Choices.check is `value == choice`): numbers across
+   int / float / bool, nan differs from itself, lists element by element, dicts as
+   maps, a str is never a Path, configurations by identity                        *)
+Definition nan_bits : Z := 9221120237041090560.
+Fixpoint pyeq (a b : value) {struct a} : bool :=
+  match a, b with
+  | VList l, VList l' =>
+      (fix go (l l' : list value) : bool :=
+         match l, l' with
+         | [], [] => true
+         | x :: r, y :: r' => pyeq x y && go r r'
+         | _, _ => false
+         end) l l'
+  | VDict ps, VDict ps' =>
+      Nat.eqb (List.length ps) (List.length ps') &&
+      (fix all (ps : list (value * value)) : bool :=
+         match ps with
+         | [] => true
+         | (k, v) :: r =>
+             (fix find (qs : list (value * value)) : bool :=
+                match qs with
+                | [] => false
+                | (k', v') :: r' => (keq k k' && pyeq v v') || find r'
+                end) ps' && all r
+         end) ps
+  | VObj o _ _, VObj o' _ _ => Nat.eqb o o'
+  | VFloat (FFrac x), VFloat (FFrac y) => (x =? y) && negb (x =? nan_bits)
+  | _, _ => keq a b
+  end.
+
+(* Checker.check(value); a check that raises (len() of a number) refuses *)
+Definition check_ok (ck : option checker) (v : value) : bool :=
+  match ck with
+  | None => true
+  | Some (CChoices cs) => existsb (pyeq v) cs
+  | Some CNonEmpty =>
+      match v with
+      | VList l => negb (Nat.eqb (List.length l) 0)
+      | VDict ps => negb (Nat.eqb (List.length ps) 0)
+      | VStr s => negb (String.eqb s "")
+      | _ => false
+      end
   end.
 
 Fixpoint map_res {A B} (f : A -> result B) (l : list A) : result (list B) :=
@@ -366,14 +418,31 @@ Fixpoint odd (cl : classes) (t : tyexp) (v : value) : Prop :=
 (* ------------------------------------------------- ConfigInformation.set/get *)
 Definition is_none (v : value) : bool := match v with VNone => true | _ => false end.
 
-(* the value that set() stores, or Err when it raises *)
+(* Argument.validate: the type coerces, THEN the checker (if any) looks at the coerced
+   value; what is returned (and stored) is the coerced value                        *)
+Definition arg_validate_gen (none_ok : bool) (cl : classes) (d : argdecl) (v : value) : result value :=
+  match validate_gen none_ok cl (a_ty d) v with
+  | Ok v' => if check_ok (a_checker d) v' then Ok v' else Err
+  | Err => Err
+  end.
+Definition arg_validate := arg_validate_gen false.
+
+(* the value that set() stores, or Err when it raises.  None: refused when the
+   parameter is required, and (repaired, fixes/C15-7) when it is not declared Optional -
+   a default does not make None a value of the parameter - unless set() is called by
+   the library itself (bypass: construction, loading); literal code (none_ok): only
+   the required test                                                                *)
 Definition assign_gen (none_ok : bool) (cl : classes) (d : argdecl) (sealed bypass : bool) (v : value)
   : result value :=
   if sealed && negb bypass then Err                                   (* read-only *)
   else if negb bypass && (a_generated d || a_constant d) then Err     (* read-only property *)
-  else if is_none v then (if a_required d then Err else Ok VNone)
-  else validate_gen none_ok cl (a_ty d) v.
+  else if is_none v then
+    (if a_required d then Err
+     else if negb none_ok && negb bypass && negb (a_optional d) then Err
+     else Ok VNone)
+  else arg_validate_gen none_ok cl d v.
 Definition assign := assign_gen false.
+Definition assign_prefix := assign_gen true.
 
 (* what a parameter may hold *)
 Definition arg_has_type (cl : classes) (d : argdecl) (v : value) : Prop :=
@@ -425,6 +494,10 @@ Definition default_accepted (cl : classes) (d : argdecl) (default : option value
   | None => true
   | Some dv => match validate cl (a_ty d) dv with Ok _ => true | Err => false end
   end.
+
+Definition with_checker (d : argdecl) (ck : option checker) : argdecl :=
+  {| a_ty := a_ty d; a_required := a_required d; a_generated := a_generated d; a_constant := a_constant d;
+     a_optional := a_optional d; a_checker := ck |}.
 
 Definition declare_default (cl : classes) (a : annot) (default : option value) : option argdecl :=
   match declare a (match default with Some _ => true | None => false end) with
@@ -634,7 +707,8 @@ Record session := {
 Inductive op :=
 | OSubmit (root : nat) (init : list nat)      (* root.submit(init_tasks=init) *)
 | OValidate (root : nat)                      (* root.__xpm__.validate() *)
-| OSet (m k : nat) (v : value).               (* m.<k-th argument> = v *)
+| OSet (m k : nat) (v : value)                (* m.<k-th argument> = v *)
+| OInstance (root : nat).                     (* root.instance(): validate, seal, build the instance *)
 
 (* the value as ObjectType.validate sees it: the "has a job" flag is read off the
    objects at the time of the assignment                                            *)
@@ -656,8 +730,21 @@ Fixpoint upd_nth {A : Type} (l : list A) (i : nat) (x : A) : list A :=
 Definition set_init (n : node) (init : list nat) : node :=
   {| n_cls := n_cls n; n_fields := n_fields n; n_pre := n_pre n; n_init := init; n_sealed := n_sealed n |}.
 
+(* sealing: every configuration the walk went through becomes read-only *)
+Definition with_sealed (n : node) (b : bool) : node :=
+  {| n_cls := n_cls n; n_fields := n_fields n; n_pre := n_pre n; n_init := n_init n; n_sealed := b |}.
+Fixpoint seal_from (i : nat) (vis : list nat) (h : heap) : heap :=
+  match h with
+  | [] => []
+  | n :: r => (if mem i vis then with_sealed n true else n) :: seal_from (S i) vis r
+  end.
+Definition seal_nodes (vis : list nat) (h : heap) : heap := seal_from 0 vis h.
+Definition seal_session (s : session) (vis : list nat) : session :=
+  {| s_heap := seal_nodes vis (s_heap s); s_jobs := s_jobs s; s_reg := s_reg s |}.
+
 (* submit, step by step.  The states the objects and the scheduler go through:
-     s --[init tasks set, job created]--> s1 --[validation]--> registered | rolled back
+     s --[init tasks set, job created]--> s1 --[validation]--> sealed --> registered
+                                             \--[validation raises]--> rolled back
    `rollback = true` is the repaired code (fixes/C15-4): when validation raises, the
    job is dropped and the init tasks are restored; `rollback = false` is the code as
    it is at 5d2cab3: the job (and the init tasks) stay.  Registration is a step of
@@ -679,7 +766,7 @@ Definition submit_trace (rollback : bool) (cl : classes) (s : session) (root : n
       else
         let s1 := begin_submit s root n init in
         match cfg_validate cl (s_heap s1) root with
-        | Some (VOk _) => ([s1; register s1 root], Accepted)
+        | Some (VOk vis) => ([s1; seal_session s1 vis; register (seal_session s1 vis) root], Accepted)
         | Some (VErr _) => ([s1; if rollback then s else s1], Rejected)
         | None => ([s1], OutOfFuel)
         end
@@ -705,6 +792,12 @@ Definition sess_step_gen (rollback : bool) (cl : classes) (s : session) (o : op)
           | Stored => ({| s_heap := upd_nth (s_heap s) m n'; s_jobs := s_jobs s; s_reg := s_reg s |}, Accepted)
           | _ => (s, Rejected)
           end
+      end
+  | OInstance root =>                           (* fromConfig: self.validate(); self.seal(context) *)
+      match cfg_validate cl (s_heap s) root with
+      | Some (VOk vis) => (seal_session s vis, Accepted)
+      | Some (VErr _) => (s, Rejected)
+      | None => (s, OutOfFuel)
       end
   end.
 Definition sess_step := sess_step_gen true.            (* repaired (fixes/C15-4) *)
